@@ -168,43 +168,65 @@ func runTable(c *Ctx, ts tableSpec) {
 	}
 	var mismatches []string
 	nVal, nAsserted := 0, 0
-	unknownAtoms := map[string]bool{}
-	for a := range atoms {
+	unknownAtoms := map[string]int{}
+	oracleAtoms := map[string]int{}
+	for a, d := range atoms {
 		if _, ok := ts.Atoms[a]; !ok {
-			unknownAtoms[a] = true
+			unknownAtoms[a] = d
+		} else {
+			oracleAtoms[a] = d
 		}
 	}
-	forEachValuation(atoms, func(val map[string]int) {
-		if !consistent(val) {
+	// Atoms the oracle does not name (locals holding constants, results the
+	// specification is indifferent to) are quantified existentially: every
+	// extension of the oracle valuation that selects a path must yield the
+	// expected outcome, and at least one extension must select a path.
+	forEachValuation(oracleAtoms, func(oval map[string]int) {
+		if !consistent(oval) {
 			return
 		}
-		nVal++
-		var got []string
-		for _, r := range rows {
-			if evalF(r.f, val) {
-				got = append(got, r.out)
-			}
-		}
-		sort.Strings(got)
-		got = uniqStrings(got)
-		v := &Valuation{val: val, used: map[string]bool{}}
+		v := &Valuation{val: oval, used: map[string]bool{}}
 		want, asserted := ts.Expected(v)
+		nVal++
 		if !asserted {
 			return
 		}
 		nAsserted++
+		gotSet := map[string]bool{}
+		full := map[string]int{}
+		for k, x := range oval {
+			full[k] = x
+		}
+		forEachValuation(unknownAtoms, func(uval map[string]int) {
+			for k, x := range uval {
+				full[k] = x
+			}
+			if !consistent(full) {
+				return
+			}
+			for _, r := range rows {
+				if evalF(r.f, full) {
+					gotSet[r.out] = true
+				}
+			}
+		})
+		var got []string
+		for g := range gotSet {
+			got = append(got, g)
+		}
+		sort.Strings(got)
 		switch {
 		case len(got) == 0:
 			if len(mismatches) < 6 {
-				mismatches = append(mismatches, fmt.Sprintf("valuation %s: no path of the function is selected (want %s)", showVal(val), want))
+				mismatches = append(mismatches, fmt.Sprintf("valuation %s: no path of the function is selected (want %s)", showVal(oval), want))
 			}
 		case len(got) > 1:
 			if len(mismatches) < 6 {
-				mismatches = append(mismatches, fmt.Sprintf("valuation %s: outcome depends on something outside the atoms: %v (want %s)", showVal(val), got, want))
+				mismatches = append(mismatches, fmt.Sprintf("valuation %s: outcome depends on something outside the specified atoms: %v (want %s)", showVal(oval), got, want))
 			}
 		case got[0] != want:
 			if len(mismatches) < 6 {
-				mismatches = append(mismatches, fmt.Sprintf("valuation %s: code yields %s, specification requires %s", showVal(val), got[0], want))
+				mismatches = append(mismatches, fmt.Sprintf("valuation %s: code yields %s, specification requires %s", showVal(oval), got[0], want))
 			}
 		}
 	})
@@ -213,9 +235,9 @@ func runTable(c *Ctx, ts tableSpec) {
 		ua = append(ua, a)
 	}
 	sort.Strings(ua)
-	detail := fmt.Sprintf("%d structural paths, %d atoms %v, %d consistent valuations enumerated exhaustively, %d asserted", len(paths), len(atoms), atomList(atoms), nVal, nAsserted)
+	detail := fmt.Sprintf("%d structural paths, %d specified atoms %v, %d consistent valuations enumerated exhaustively, %d asserted", len(paths), len(oracleAtoms), atomList(oracleAtoms), nVal, nAsserted)
 	if len(ua) > 0 {
-		detail += fmt.Sprintf("; atoms not named by the oracle (outcome must not depend on them): %v", ua)
+		detail += fmt.Sprintf("; atoms not named by the oracle (quantified over; the outcome must not depend on them): %v", ua)
 	}
 	var o *Obligation
 	switch {
@@ -372,6 +394,9 @@ func classifyValue(info *types.Info, fd *ast.FuncDecl, e ast.Expr, depth int) st
 				return "err(plain)"
 			}
 			return "call:" + f.Name()
+		}
+		if v, ok := obj.(*types.Var); ok {
+			return "call:" + v.Name()
 		}
 	}
 	if ue, ok := e.(*ast.UnaryExpr); ok {
